@@ -141,3 +141,45 @@ func (g *Gen) hardFloatCase(e, p int) (d128.Decimal, bool) {
 	}
 	return mk(g.r.Intn(2) == 0, c, e), true
 }
+
+// ratFarSticky solves for a quotient A / B (both of at most 34 digits) whose decimal expansion is K (34 digits), then a
+// guard digit gd, then at least eight zeros, and only then something non-zero: the inexactness is decided by a remainder
+// that is tiny compared with the divisor.  (10K + gd) * B + r = A * 10^(s+1) with 0 < r < B / 10^8.
+func (g *Gen) ratFarSticky(gd int) (a, b *big.Int, ok bool) {
+	nb := 10 + g.r.Intn(20) // digits of B
+	s := nb
+	for {
+		b = randDigits(g.r, nb)
+		if b.Bit(0) == 1 && new(big.Int).Mod(b, big.NewInt(5)).Sign() != 0 {
+			break
+		}
+	}
+	mod := pow10(s + 1)
+	// r small with r = -gd * B (mod 10)
+	r := new(big.Int).Rand(g.r, new(big.Int).Div(b, pow10(9)))
+	r.Add(r, big.NewInt(1))
+	want := new(big.Int).Mod(new(big.Int).Neg(new(big.Int).Mul(big.NewInt(int64(gd)), b)), big.NewInt(10))
+	for new(big.Int).Mod(r, big.NewInt(10)).Cmp(want) != 0 {
+		r.Add(r, big.NewInt(1))
+	}
+	inv := new(big.Int).ModInverse(b, mod)
+	if inv == nil {
+		return nil, nil, false
+	}
+	t := new(big.Int).Mod(new(big.Int).Neg(new(big.Int).Mul(r, inv)), mod) // 10K + gd modulo 10^(s+1)
+	if new(big.Int).Mod(t, big.NewInt(10)).Int64() != int64(gd) {
+		return nil, nil, false
+	}
+	klow := new(big.Int).Div(t, big.NewInt(10)) // K modulo 10^s
+	khigh := randDigits(g.r, 34-s)
+	k := new(big.Int).Add(new(big.Int).Mul(khigh, pow10(s)), klow)
+	n := new(big.Int).Add(new(big.Int).Mul(new(big.Int).Add(new(big.Int).Mul(k, big.NewInt(10)), big.NewInt(int64(gd))), b), r)
+	if new(big.Int).Mod(n, mod).Sign() != 0 {
+		return nil, nil, false
+	}
+	a = new(big.Int).Div(n, mod)
+	if len(a.String()) > 34 || a.Sign() == 0 {
+		return nil, nil, false
+	}
+	return a, b, true
+}
